@@ -71,3 +71,56 @@ func H_C19_json() {
 	t2.end()
 	vxrt.Assert(len(t2.errors) == 0 && len(t2.logs) == 0 && vxrt.FSStamp() == stamp, "C19:json-replay-passes")
 }
+
+// H_C19_mixed: one test mixes the two standalone entry points and Configs with different
+// Filename / Ext; the k-th call for a location still maps to file k of that location,
+// and a second execution replays every call.
+func H_C19_mixed() {
+	vxrt.CI(false)
+	dir := vxrt.Dir()
+	cfgs := []*Config{WithConfig(Dir(dir)), WithConfig(Dir(dir), Ext(".txt")), WithConfig(Dir(dir), Filename("fn"))}
+	calls := vxrt.Len("calls", 2, vxrt.Param("calls", 2))
+	apis := make([]int, calls)
+	cfs := make([]int, calls)
+	for k := 0; k < calls; k++ {
+		apis[k] = vxrt.Choice("api", 2)
+		cfs[k] = vxrt.Choice("config", 3)
+	}
+	run := func(t *mockT, record bool) {
+		counts := map[string]int{}
+		for k := 0; k < calls; k++ {
+			base, ext := "TestM", ""
+			if cfs[k] == 2 {
+				base = "fn"
+			}
+			if cfs[k] == 1 {
+				ext = ".txt"
+			}
+			if apis[k] == 1 && ext == "" {
+				ext = ".json"
+			}
+			counts[base+"|"+ext]++
+			p := dir + "/" + base + "_" + strconv.Itoa(counts[base+"|"+ext]) + ".snap" + ext
+			val := `"v` + strconv.Itoa(k) + `"`
+			if apis[k] == 0 {
+				cfgs[cfs[k]].MatchStandaloneSnapshot(t, val)
+			} else {
+				cfgs[cfs[k]].MatchStandaloneJSON(t, val)
+			}
+			if record {
+				vxrt.Assert(readFile(p) == val, "C19:call-k-of-a-location-is-file-k")
+			}
+		}
+	}
+	t1 := newT("TestM")
+	run(t1, true)
+	t1.end()
+	vxrt.Assert(len(t1.errors) == 0 && len(t1.logs) == calls, "C19:mixed-record")
+	ents, _ := osReadDirNames(dir)
+	vxrt.Assert(len(ents) == calls, "C19:one-file-per-call")
+	stamp := vxrt.FSStamp()
+	t2 := newT("TestM")
+	run(t2, false)
+	t2.end()
+	vxrt.Assert(len(t2.errors) == 0 && len(t2.logs) == 0 && vxrt.FSStamp() == stamp, "C19:mixed-replay-passes")
+}
